@@ -151,8 +151,9 @@ def State.freshArr (s : State) (n : Nat) (w : Bool) : Nat × State :=
   let (b, s) := s.allocBuf cells
   s.allocArr { buf := b, sel := List.range n, w := w }
 
+/-- every written cell gets a stamp of its own (new numbers are all different) -/
 def setCells (cells : List Nat) (ps : List Nat) (stamp : Nat) : List Nat :=
-  ps.foldl (fun c p => c.set p stamp) cells
+  (ps.foldl (fun (acc : List Nat × Nat) p => (acc.1.set p acc.2, acc.2 + 1)) (cells, stamp)).1
 
 /-- `arr[pos] = <new numbers>` through ONE ndarray object; NumPy raises ValueError when it is not writeable -/
 def State.writeArr (s : State) (a : Nat) (pos : List Nat) : State × Bool :=
@@ -160,7 +161,7 @@ def State.writeArr (s : State) (a : Nat) (pos : List Nat) : State × Bool :=
   | some x =>
     if x.w then
       let ps := pos.map fun j => x.sel.getD j 0
-      ({ s with bufs := upd s.bufs x.buf (fun c => setCells c ps s.clock), clock := s.clock + 1 }, true)
+      ({ s with bufs := upd s.bufs x.buf (fun c => setCells c ps s.clock), clock := s.clock + ps.length + 1 }, true)
     else (s, false)
   | none => (s, false)
 
@@ -419,23 +420,25 @@ def negVals (s : State) : Val → Val × State
   | .sc _ => let r := s.stamps 1; (.sc (r.1.headD 0), r.2)
   | .arr a => let r := s.freshArr (allPos s a).length true; (.arr r.1, r.2)
 
-def negNR (s : State) (i : Nat) : Nat × State :=
+def negNR (s : State) (i : Nat) (uok dok : Bool) : Nat × State :=
   match s.objs[i]? with
   | some o =>
     let v := negVals s o.vals
     -- lines 1166-1171: the object is writable now; a read-only mask array is replaced by a copy
     let k := if v.2.mskRO o.mask then copyMask v.2 o.mask else (o.mask, v.2)
-    k.2.allocObj { o with vals := v.1, mask := k.1, ro := false, derivs := [], wodc := none }
+    -- (`uok`, `dok`: class attributes of the result: `-Boolean` is a Scalar)
+    k.2.allocObj { o with vals := v.1, mask := k.1, ro := false, derivs := [], wodc := none,
+                          unitsOk := uok, derivsOk := dok }
   | none => (i, s)
 
 def negStep (c : Nat) (s : State) (kd : Nat × Nat) : State :=
-  let nd := negNR s kd.2
+  let nd := negNR s kd.2 true true
   (insertDeriv nd.2 c kd.1 nd.1 true).1
 
-def neg (s : State) (i : Nat) : Nat × State :=
+def neg (s : State) (i : Nat) (uok dok : Bool) : Nat × State :=
   match s.objs[i]? with
   | some o =>
-    let c := negNR s i
+    let c := negNR s i uok dok
     (c.1, o.derivs.foldl (negStep c.1) c.2)
   | none => (i, s)
 
@@ -666,7 +669,7 @@ inductive Op where
   | wod (v : Nat)
   | clone (v : Nat) (recursive : Bool)
   | copy (v : Nat) (recursive readonly : Bool)
-  | neg (v : Nat)
+  | neg (v : Nat) (unitsOk derivsOk : Bool)                          -- class attributes of the result
   | pickle (v : Nat) (mc : MaskClass) (dmc : List (Nat × MaskClass))
   | getDeriv (v k : Nat)
   | rawRef (v : Nat) (mask : Bool)                                  -- `b.values` / `b.mask`: the ndarray object itself
@@ -728,9 +731,9 @@ def step (s : State) : Op → State × Res
     match s.objs[v]? with
     | some _ => objRes (copy s v r ro)
     | none => (s, .err .bad)
-  | .neg v =>
+  | .neg v uok dok =>
     match s.objs[v]? with
-    | some _ => objRes (neg s v)
+    | some _ => objRes (neg s v uok dok)
     | none => (s, .err .bad)
   | .pickle v mc dmc =>
     match s.objs[v]? with
@@ -863,5 +866,39 @@ def pathOk (names : List String) (p : Path) : Bool :=
 def tableOk (t : List Method) : Bool :=
   let names := t.map (·.name)
   t.all fun m => m.paths.all (pathOk names)
+
+/-- how a mutator treats a read-only object, read off its paths -/
+inductive GuardKind where
+  | always                  -- every path is guarded
+  | unlessOverride          -- guarded on every path except those on which `override` is known to be set
+  | unlessOverrideOrNewKey  -- the conditional guard of insert_deriv(s): rejected iff the key exists and no override
+  | unsupported             -- every path raises before anything else: the class does not support the operator
+  | delegate                -- nothing but a call of another method of the table
+  deriving DecidableEq, Repr, Inhabited
+
+def firstEv : List Ev → Option Ev
+  | [] => none
+  | .ret :: t => firstEv t
+  | e :: _ => some e
+
+def isRaise : Option Ev → Bool
+  | some .raise => true
+  | _ => false
+
+def isCall : Option Ev → Bool
+  | some (.call _) => true
+  | _ => false
+
+def isRoGuard : Option Ev → Bool
+  | some (.roGuard ex) => ex.contains "keyPresent" && ex.contains "notOverride" && ex.all exemptOk
+  | _ => false
+
+/-- the classification of one method of the table -/
+def kindOf (m : Method) : GuardKind :=
+  if m.paths.all (fun p => isRaise (firstEv p.evs)) then .unsupported
+  else if m.paths.any (fun p => p.override == .truthy) then .unlessOverride
+  else if m.paths.any (fun p => isRoGuard (firstEv p.evs)) then .unlessOverrideOrNewKey
+  else if m.paths.all (fun p => isCall (firstEv p.evs)) then .delegate
+  else .always
 
 end PMV.GuardEv
